@@ -311,6 +311,69 @@ func c19Header(r *ev.Run) int {
 	return n
 }
 
+// c19Raw: pre single bytes, a raw Write of n bytes, a raw Write of m bytes (if m > 0), PutUint32;
+// the encoding must be exactly those bytes and the matching reads must return them.
+func c19Raw(r *ev.Run, pre, n, m int) {
+	pat := func(tag byte, k int) []byte {
+		b := make([]byte, k)
+		for i := range b {
+			b[i] = tag ^ byte(i*7+i>>8)
+		}
+		return b
+	}
+	a, b2 := pat(0x11, n), pat(0x83, m)
+	ac, bc := append([]byte{}, a...), append([]byte{}, b2...)
+	var want []byte
+	e := ofbase.NewEncoder()
+	for i := 0; i < pre; i++ {
+		e.PutUint8(uint8(0xc0 + i))
+		want = append(want, byte(0xc0+i))
+	}
+	e.Write(a)
+	want = append(want, ac...)
+	if m > 0 {
+		e.Write(b2)
+		want = append(want, bc...)
+	}
+	e.PutUint32(0xfeedf00d)
+	want = append(want, 0xfe, 0xed, 0xf0, 0x0d)
+	rep := map[string]any{"raw_write": []int{pre, n, m}}
+	desc := fmt.Sprintf("%d single bytes, Write(%d bytes), Write(%d bytes), PutUint32", pre, n, m)
+	got := e.Bytes()
+	if !bytes.Equal(got, want) {
+		i := 0
+		for i < len(got) && i < len(want) && got[i] == want[i] {
+			i++
+		}
+		r.Violation("raw-write:bytes", fmt.Sprintf("%s encodes to %d bytes, %d were written; first difference at offset %d", desc, len(got), len(want), i), rep)
+		return
+	}
+	if !bytes.Equal(a, ac) || !bytes.Equal(b2, bc) {
+		r.Violation("raw-write:argument-changed", desc+": the slice given to Write was modified", rep)
+		return
+	}
+	d := ofbase.NewDecoder(append([]byte{}, got...))
+	for i := 0; i < pre; i++ {
+		if d.ReadUint8() != uint8(0xc0+i) {
+			r.Violation("raw-write:read", fmt.Sprintf("%s: prefix byte %d read back differently", desc, i), rep)
+			return
+		}
+	}
+	if g := d.Read(n); !bytes.Equal(g, ac) {
+		r.Violation("raw-write:read", fmt.Sprintf("%s: Read(%d) does not return the bytes written", desc, n), rep)
+		return
+	}
+	if m > 0 {
+		if g := d.Read(m); !bytes.Equal(g, bc) {
+			r.Violation("raw-write:read", fmt.Sprintf("%s: second Read(%d) does not return the bytes written", desc, m), rep)
+			return
+		}
+	}
+	if g := d.ReadUint32(); g != 0xfeedf00d || d.Length() != 0 {
+		r.Violation("raw-write:read", fmt.Sprintf("%s: sentinel reads back as %#x with %d bytes left", desc, g, d.Length()), rep)
+	}
+}
+
 func c19(r *ev.Run, replay string) {
 	if replay != "" {
 		var c struct {
@@ -325,12 +388,15 @@ func c19(r *ev.Run, replay string) {
 			L2      int      `json:"length2"`
 			Rw2     int      `json:"rewind2"`
 			Mode    string   `json:"mode"`
+		Raw     *[3]int  `json:"raw_write"`
 		}
 		if err := ev.LoadReplay(replay, &c); err != nil {
 			fmt.Println("cannot load replay:", err)
 			return
 		}
 		switch {
+		case c.Raw != nil:
+			c19Raw(r, c.Raw[0], c.Raw[1], c.Raw[2])
 		case c.Mode != "":
 			c19Header(r)
 		case c.Depth != nil:
@@ -421,6 +487,28 @@ func c19(r *ev.Run, replay string) {
 		}
 	}
 	r.Completed("every 8-bit value through PutChar / PutUint8 / Write(1 byte), every 16-bit value through PutUint16")
+	// raw writes of every size: the buffer behind the encoder has to grow by any amount in one step.
+	// prefix bytes written one at a time, then one Write of n bytes, an optional second Write of m
+	// bytes, a 32-bit sentinel; everything is read back in the same order.
+	maxraw := 4200
+	if r.Thorough() {
+		maxraw = 70000
+	}
+	for _, pre := range []int{0, 1, 7, 8, 9, 63, 64, 65} {
+		for n := 0; n <= maxraw; n++ {
+			c19Raw(r, pre, n, 0)
+			nseq++
+		}
+	}
+	for _, pre := range []int{0, 3, 8} {
+		for n := 0; n <= 300; n++ {
+			for _, m := range []int{1, 2, 55, 56, 57, 64, 119, 120, 121, 128, 129, 255, 256, 257, 511, 513, 1025, 3000} {
+				c19Raw(r, pre, n, m)
+				nseq++
+			}
+		}
+	}
+	r.Completed(fmt.Sprintf("one raw Write of every size 0..%d behind 0,1,7,8,9,63,64,65 bytes; two raw Writes (0..300, then 18 sizes up to 3000) behind 0,3,8 bytes; each followed by a 32-bit sentinel and read back", maxraw))
 	// slicing geometries
 	var ngeo int64
 	for p := 0; p <= 16; p++ {
